@@ -430,12 +430,17 @@ func (p *Prog) ExtremumUpdates(pkg string, keep func(file string) bool) []Extrem
 				for _, cmp := range cmps {
 					a, b := base(cmp.X), base(cmp.Y)
 					other := ""
+					var otherExpr ast.Expr
 					switch rhs {
 					case a:
-						other = b
+						other, otherExpr = b, cmp.Y
 					case b:
-						other = a
+						other, otherExpr = a, cmp.X
 					default:
+						continue
+					}
+					// a comparison with a constant is a range check before a conversion, not a running extremum
+					if tv, ok := pk.TypesInfo.Types[otherExpr]; ok && tv.Value != nil {
 						continue
 					}
 					out = append(out, ExtremumUpdate{fd.Name.Name, ifs, p.NodeText(ifs.Cond) + " { " + p.NodeText(as) + " }", other == lhs, other, lhs})
